@@ -22,7 +22,16 @@ def make_hooks(contract, cfg):
         fn = raw_function(callee.target)
 
         def handler(ip, args, kwargs, callee=callee, fn=fn):
-            return callee.call_site(ip, fn, args, kwargs)
+            try:
+                return callee.call_site(ip, fn, args, kwargs)
+            except (ValueError, TypeError) as ex:
+                # the call does not have the shape the call-site contract was written for (the callee's signature changed):
+                # the contract does not apply - execute the callee's real body instead (always sound)
+                import traceback as _tb
+                last = _tb.extract_tb(ex.__traceback__)[-1]
+                if 'unpack' in str(ex) and os.sep + 'contracts' + os.sep in last.filename:
+                    return ip.call_repo(fn, args, kwargs)
+                raise
         hooks[fn] = handler
     extra = getattr(contract, 'hooks', None)
     if extra:
